@@ -81,6 +81,38 @@ func main() {
 		for _, id := range propOrder {
 			fmt.Println(id, strings.Join(props[id].Rules, " "))
 		}
+	case "table":
+		// debugging aid: dump the decision table of one function (-rules pkg:func)
+		p, err := Load(*flagRepo, nil, nil, true)
+		if err != nil {
+			fmt.Println(err)
+			os.Exit(1)
+		}
+		parts := strings.SplitN(*flagRules, ":", 2)
+		fn := p.ssaFunc(parts[0], parts[1])
+		if fn == nil {
+			fmt.Println("no such function")
+			os.Exit(1)
+		}
+		tx, rows := p.extractTable(fn, nil, &TableCfg{})
+		for k, ai := range tx.atoms {
+			fmt.Printf("atom %s kind=%s dom=%v\n", k, ai.Kind, ai.Dom)
+		}
+		for i, r := range rows {
+			var gs []string
+			for _, g := range r.Guards {
+				gs = append(gs, fmt.Sprintf("%v:%s", g.Truth, g.T))
+			}
+			var os_ []string
+			for _, o := range r.Out {
+				os_ = append(os_, o.String())
+			}
+			var cs []string
+			for _, c := range r.Calls {
+				cs = append(cs, c.Name()+"="+calleeName(&c.Call))
+			}
+			fmt.Printf("row %d end=%s loop=%v\n  guards: %s\n  calls: %s\n  out: %s\n", i, p.pos(r.End.Pos()), r.Loop != nil, strings.Join(gs, " ∧ "), strings.Join(cs, " "), strings.Join(os_, ", "))
+		}
 	case "gram":
 		p, err := Load(*flagRepo, nil, nil, true)
 		if err != nil {
